@@ -1930,6 +1930,10 @@ func (db *DatabaseCollectionWithUser) getResyncedDocument(ctx context.Context, d
 			roles = nil
 			channels = nil
 		}
+		if rev.ID != doc.GetRevTreeID() && !rev.Channels.Equals(channels) {
+			// channels of a non-winning leaf are only stored on the revision: persist the change even if the winner is unchanged
+			forceUpdate = true
+		}
 		rev.Channels = channels
 
 		if rev.ID == doc.GetRevTreeID() {
